@@ -14,7 +14,10 @@ use icy_engine::{Buffer, IceMode, TextPane};
 use icyv::proptest::prelude::*;
 use icyv::util::{pick, Bytes};
 use icyv::{Engine, PartCfg, Verdict};
-use model::{Cell, Fmt, Model};
+use model::{Cell, Fmt, Model, Steer};
+
+/// open known findings the generators steer away from (order = fields of `Steer`)
+const STEER_IDS: [&str; 4] = ["C05-tnd-ctrl-chars", "C05-tnd-palette0-not-black", "C05-xb-512-without-font", "C05-idf-loader-accepts-unwritable"];
 use serde::{Deserialize, Serialize};
 use std::path::PathBuf;
 
@@ -249,8 +252,7 @@ fn compare_idx(m: &Model, cells: &[Cell], d: &refdec::IdxPic) -> Result<(), (Str
 fn compare_tnd(m: &Model, cells: &[Cell], d: &refdec::RgbPic) -> Result<(), (String, String)> {
     let e = |k: &str, msg: String| Err((k.to_string(), msg));
     if d.w != m.w as usize {
-        let class = if m.w > 1000 { "|w>1000" } else { "" };
-        return e(&format!("width{class}"), format!("SAUCE width {}, saved buffer has {}", d.w, m.w));
+        return e("width", format!("SAUCE width {}, saved buffer has {}", d.w, m.w));
     }
     let pal = m.palette8();
     let rows = d.h.min(m.h as usize);
@@ -324,7 +326,6 @@ fn roundtrip(m: &Model, cells: &[Cell], orig: &Buffer, a: &Buffer) -> Result<(),
         let pal = m.palette8();
         let class = match d.field {
             "height" if m.h < 25 && a.get_height() == 25 => "|saved<25_loaded_25",
-            "width" if m.w > 1000 => "|w>1000",
             // Tundra: no foreground command has been written yet (all cells so far are black on the writer's side)
             "fg" if m.fmt == Fmt::Tnd && (0..=d.cell.unwrap_or(0)).all(|k| pal[cells[k].fg as usize] == [0, 0, 0]) => "|black_before_first_fg_command",
             "fg" | "bg" | "char" | "blink" | "glyph" | "cell_missing" if m.fmt == Fmt::Xb => {
@@ -470,6 +471,9 @@ fn check_model(m: &Model) -> Verdict {
     if m.compress {
         class.push_str(",compress");
     }
+    if m.steered {
+        class.push('~');
+    }
     Verdict::pass(nontrivial, class)
 }
 
@@ -494,6 +498,10 @@ enum Mut {
 struct FuzzCase {
     base: Model,
     muts: Vec<Mut>,
+    /// set by the generator only: accepted files that meet the precondition of an open known finding are discarded
+    /// ("steered: <id>") before the re-save clause; replay and witness files never carry it
+    #[serde(default)]
+    steer: bool,
 }
 
 fn data_start(m: &Model, cells: &[Cell]) -> usize {
@@ -594,7 +602,7 @@ fn muts() -> impl Strategy<Value = Vec<Mut>> {
 }
 
 fn fuzz_cases(base: BoxedStrategy<Model>) -> BoxedStrategy<FuzzCase> {
-    (base, muts()).prop_map(|(base, muts)| FuzzCase { base, muts }).boxed()
+    (base, muts()).prop_map(|(base, muts)| FuzzCase { base, muts, steer: true }).boxed()
 }
 
 fn simpler_fuzz(c: &FuzzCase) -> Vec<FuzzCase> {
@@ -603,16 +611,30 @@ fn simpler_fuzz(c: &FuzzCase) -> Vec<FuzzCase> {
         for i in 0..c.muts.len() {
             let mut m = c.muts.clone();
             m.remove(i);
-            out.push(FuzzCase { base: c.base.clone(), muts: m });
+            out.push(FuzzCase { base: c.base.clone(), muts: m, steer: c.steer });
         }
     }
     for b in model::simpler(&c.base) {
-        out.push(FuzzCase { base: b, muts: c.muts.clone() });
+        out.push(FuzzCase { base: b, muts: c.muts.clone(), steer: c.steer });
     }
     out
 }
 
-fn check_fuzz(c: &FuzzCase) -> Verdict {
+/// precondition of an open known finding met by a loaded buffer? (fuzz parts; exact preconditions, checked before
+/// the re-save clause so that a case never ends at a known failure)
+fn steered_away(fmt: Fmt, a: &Buffer, opts: &icy_engine::SaveOptions, st: Steer) -> Option<&'static str> {
+    let (w, h) = (a.get_width(), a.get_height());
+    match fmt {
+        // a used font page without a font in the table: the XBin loader accepted 512Chars without the Font flag
+        Fmt::Xb if st.xb_512 && icy_engine::analyze_font_usage(a).iter().any(|p| a.get_font(*p).is_none()) => Some(STEER_IDS[2]),
+        // pictures the IDF writer refuses: more than 200 lines, or (with SAUCE) more than 510 columns
+        Fmt::Idf if st.idf_unwritable && (h > 200 || (opts.save_sauce && w / 2 > 255)) => Some(STEER_IDS[3]),
+        Fmt::Tnd if st.tnd_ctrl && w > 0 && (0..h).any(|y| (0..w).any(|x| (1..=6).contains(&(a.get_char((x, y)).ch as u32)))) => Some(STEER_IDS[0]),
+        _ => None,
+    }
+}
+
+fn check_fuzz(c: &FuzzCase, st: Steer) -> Verdict {
     let m = &c.base;
     if let Some(why) = m.out_of_domain() {
         return Verdict::discard(format!("base model outside the domain: {why}"));
@@ -650,6 +672,11 @@ fn check_fuzz(c: &FuzzCase) -> Verdict {
     if matches!(m.fmt, Fmt::Bin | Fmt::Tnd) {
         opts.save_sauce = true;
     }
+    if c.steer {
+        if let Some(id) = steered_away(m.fmt, &a, &opts, st) {
+            return Verdict::discard(format!("steered: {id}"));
+        }
+    }
     let changed = same_picture(&orig, &a, false).is_some();
     if let Err((k, msg)) = resave(m.fmt, &a, &opts) {
         return Verdict::fail(k, msg);
@@ -664,17 +691,36 @@ fn main() {
     eng.rule(
         "Parts xb/bin/adf/idf/tnd: buffers generated inside the representable domain (XBin 1..=4096 x 1..=200, one or two 256-glyph fonts of height 1..=32, \
          default or custom 6-bit palette, blink or iCE, raw or compressed, 512-character mode with a font page per cell; BIN even widths 2..=510 with SAUCE; ADF 80 columns iCE 8x16; \
-         IDF 1..=80 columns iCE 8x16 incl. (0x01,0x00) marker cells; Tundra 1..=1300 columns with SAUCE, 1..=24 arbitrary RGB colours, characters 1..=6 in a third of the cases); \
+         IDF 1..=80 columns iCE 8x16 incl. (0x01,0x00) marker cells; Tundra 1..=1000 columns with SAUCE, 1..=24 arbitrary RGB colours, characters 1..=6 in a third of the cases); \
          heights 1..=200 below/at/above 25; cells = cyclic run list over the full byte range; lossles_output = true. Oracle per case: reference decode of the saved bytes = model; \
          load(save(buffer)) = buffer (size, per cell char / shown fg RGB / bg RGB / blink / glyph table of its font page, ice_mode, palette); load(save(load(file))) shows the same picture. \
          Parts *_fuzz: a saved small buffer mutated by 1..=4 byte/word/insert/delete/truncate/strip-SAUCE/append edits; files the loader rejects (or panics on: C02) are discarded; accepted files \
          are re-saved and re-loaded and must show the same picture. Non-trivial (generated): height != 25 or width != 80 or two font pages used or a character < 0x20 present; \
-         (fuzz): the accepted file shows a picture different from its base. Distinct by case hash.",
+         (fuzz): the accepted file shows a picture different from its base. Distinct by case hash. \
+         While a known finding listed under coverage.steering is open, its precondition is avoided: Tundra buffers carry no characters 1..=6 and their first cell never uses the colour of a \
+         non-black palette entry 0 (such models end in ~ in the class histogram); accepted fuzzed files that meet a precondition (Tundra picture with a character 1..=6, XBin picture using a font \
+         page without a font, IDF picture with > 200 lines or with SAUCE and > 510 columns) are discarded with reason 'steered: <id>' before the re-save clause. Replay and witness files are never steered.",
     );
     eng.assume("reference decoders in the harness (written from x_bin.htm, ArtworxDataFormat.txt + adf2xbin.pas register table, idv_103.pas, SAUCE rev.5 record layout, the TUNDRA24 command description) are the format definitions");
     eng.assume("Tundra: colours before the first colour command are black on black; ADF/IDF are iCE-colour formats; 6-bit palette components c are shown as (c<<2)|(c>>4)");
     eng.assume("a buffer 'as an editor holds it' = one layer with every cell set, ice_mode Blink or Ice, fonts in slots 0 and 1, SaveOptions::new() + lossles_output + compress/save_sauce per case");
     eng.assume("fuzz parts: IDF files expanding to more than 400 rows and Tundra files jumping beyond row 400 are discarded (size-driven work belongs to C02/C03)");
+
+    eng.assume("Tundra widths are 1..=1000: Buffer::set_sauce reads a SAUCE width of 0 or > 1000 as 80 on purpose (stated in property C11), so wider pictures are outside the representable domain");
+    let st = Steer {
+        tnd_ctrl: eng.finding_open(STEER_IDS[0]),
+        tnd_pal0: eng.finding_open(STEER_IDS[1]),
+        xb_512: eng.finding_open(STEER_IDS[2]),
+        idf_unwritable: eng.finding_open(STEER_IDS[3]),
+    };
+    eng.extra(
+        "steering",
+        icyv::serde_json::json!({
+            "what": "while one of these known findings is open its precondition is avoided: generated Tundra models are changed (class tag ends in ~), accepted fuzzed files are discarded with reason 'steered: <id>' (counted per part under classes 'discard:steered: ...'); witnesses and replay files are evaluated unsteered",
+            "ids": STEER_IDS,
+            "active": format!("{st:?}"),
+        }),
+    );
 
     let q = 20_000;
     let t = 150_000;
@@ -683,15 +729,15 @@ fn main() {
     eng.generated_min(PartCfg::new("bin", q, t), || model::bin_models(false), check_model, cls, model::simpler);
     eng.generated_min(PartCfg::new("adf", q, t), || model::adf_models(false), check_model, cls, model::simpler);
     eng.generated_min(PartCfg::new("idf", q, t), || model::idf_models(false), check_model, cls, model::simpler);
-    eng.generated_min(PartCfg::new("tnd", q, t), || model::tnd_models(false), check_model, cls, model::simpler);
+    eng.generated_min(PartCfg::new("tnd", q, t), move || model::tnd_models(false, st), check_model, cls, model::simpler);
 
     let fq = 16_000;
     let ft = 200_000;
     let fcls = |c: &FuzzCase| c.base.fmt.ext().to_string();
-    eng.generated_min(PartCfg::new("xb_fuzz", fq, ft), || fuzz_cases(model::xb_models(true)), check_fuzz, fcls, simpler_fuzz);
-    eng.generated_min(PartCfg::new("bin_fuzz", fq, ft), || fuzz_cases(model::bin_models(true)), check_fuzz, fcls, simpler_fuzz);
-    eng.generated_min(PartCfg::new("adf_fuzz", fq, ft), || fuzz_cases(model::adf_models(true)), check_fuzz, fcls, simpler_fuzz);
-    eng.generated_min(PartCfg::new("idf_fuzz", fq, ft), || fuzz_cases(model::idf_models(true)), check_fuzz, fcls, simpler_fuzz);
-    eng.generated_min(PartCfg::new("tnd_fuzz", fq, ft), || fuzz_cases(model::tnd_models(true)), check_fuzz, fcls, simpler_fuzz);
+    eng.generated_min(PartCfg::new("xb_fuzz", fq, ft), || fuzz_cases(model::xb_models(true)), move |c: &FuzzCase| check_fuzz(c, st), fcls, simpler_fuzz);
+    eng.generated_min(PartCfg::new("bin_fuzz", fq, ft), || fuzz_cases(model::bin_models(true)), move |c: &FuzzCase| check_fuzz(c, st), fcls, simpler_fuzz);
+    eng.generated_min(PartCfg::new("adf_fuzz", fq, ft), || fuzz_cases(model::adf_models(true)), move |c: &FuzzCase| check_fuzz(c, st), fcls, simpler_fuzz);
+    eng.generated_min(PartCfg::new("idf_fuzz", fq, ft), || fuzz_cases(model::idf_models(true)), move |c: &FuzzCase| check_fuzz(c, st), fcls, simpler_fuzz);
+    eng.generated_min(PartCfg::new("tnd_fuzz", fq, ft), move || fuzz_cases(model::tnd_models(true, st)), move |c: &FuzzCase| check_fuzz(c, st), fcls, simpler_fuzz);
     eng.run();
 }
